@@ -7,13 +7,13 @@ from .. import core
 def run(chk):
     chk.assumptions += [
         "controller types are generated (harness/cmd/ruxh/resctl_gen.go): one per subset of the seven actions, with and without Uses()",
-        "base paths '/', '/api/' and '' (the resource name is appended to the base path as is)",
+        "base paths '/', '/api/', '/ApI/' and '' (the resource name is appended to the base path as is)",
         "registration order follows map iteration: every case is registered 4 times",
     ]
     c = core.cfg(constants=dict(D_EmptyCheckBeforeTrim=False), invariants=["TableOK", "DetOK", "Emit"])
     res = core.run_tlc("MC_Resource", cfg_text=c, timeout=600)
     chk.expect_holds(res, "operational Resource table = documented table")
-    chk.add_tlc(res, "128 action subsets x 3 base paths")
+    chk.add_tlc(res, "128 action subsets x 4 base paths")
     lines = res.lines
     if chk.tier != "thorough":   # quick: every subset once (bases spread over the subsets)
         seen = {}
